@@ -1,5 +1,5 @@
 ----------------------------- MODULE MC_CoinN -----------------------------
-(* exhaustive instances of CoinN.tla: every world is a behaviour root -> world -> round 1 .. round 4, the     *)
+(* exhaustive instances of CoinN.tla: every world is a behaviour root -> .. -> world -> round 1 .. round 4, the *)
 (* invariants evaluate the theorems in the last state.  Party N-1 deviates in every way of the deviation       *)
 (* alphabet (Mode = "byz") or is an honest party behind faulty private links (Mode = "tamper"); party 0 and    *)
 (* the deviating party range over all share polynomials, the others have fixed ones.                          *)
@@ -17,6 +17,7 @@ ASSUME GoodGroup(Grp) /\ N < Q /\ 2 * T < N
 
 Coefs == [1..(T + 1) -> 0..(Q - 1)]
 PolysAll == Coefs
+PolysOne == {[k \in 1..(T + 1) |-> 2]}
 PolysConst == {f \in Coefs : \A k \in 2..(T + 1) : f[k] = 1}       \* every constant term, fixed higher coefficients
 FixC(j) == [k \in 1..(T + 1) |-> (j + k) % Q]
 FixH(j) == [k \in 1..(T + 1) |-> (3 * j + k + 1) % Q]
@@ -36,10 +37,15 @@ World(c0, cd, d) ==
    dev |-> [j \in 1..N |-> IF j = N THEN d ELSE HonestDev]]
 
 Init == W = 0 /\ rd = 0 /\ r1 = 0 /\ r2 = 0 /\ r3 = 0 /\ r4 = 0
+\* the choice of the world is spread over three levels so that the work is shared by TLC's workers
 Next ==
   \/ /\ rd = 0
-     /\ \E c0 \in HonP, cd \in DevP, d \in Devs : W' = World(c0, cd, d)
-     /\ rd' = 1 /\ r1' = Round1(W') /\ UNCHANGED <<r2, r3, r4>>
+     /\ \E c0 \in HonP, cd \in DevP : W' = [c0 |-> c0, cd |-> cd]
+     /\ rd' = 10 /\ UNCHANGED <<r1, r2, r3, r4>>
+  \/ /\ rd = 10
+     /\ \E d \in Devs : W' = World(W.c0, W.cd, d)
+     /\ rd' = 11 /\ UNCHANGED <<r1, r2, r3, r4>>
+  \/ /\ rd = 11 /\ r1' = Round1(W) /\ rd' = 1 /\ UNCHANGED <<W, r2, r3, r4>>
   \/ /\ rd = 1 /\ r2' = Round2(W, r1) /\ rd' = 2 /\ UNCHANGED <<W, r1, r3, r4>>
   \/ /\ rd = 2 /\ r3' = Round3(W, r1, r2, Strict) /\ rd' = 3 /\ UNCHANGED <<W, r1, r2, r4>>
   \/ /\ rd = 3 /\ r4' = Round4(W, r1, r3) /\ rd' = 4 /\ UNCHANGED <<W, r1, r2, r3>>
